@@ -782,7 +782,9 @@ def run(rep, tier):
     enum_progress(rep, u)
     enum_progress(rep, u, "ini_sect_val_enum", "val_off", "type", "INI_LINE_TYPE_VALUE", {"sect_off": 0})
     from props import c17_audit
-    rep.floor("value finders", c17_audit.last_match_rule(rep, u), 2)
+    rep.floor("record finders", c17_audit.last_match_rule(rep, u), 4)
+    rep.floor("value copies in ini_val_set", c17_audit.null_value_rule(rep, u), 1)
+    c17_audit.gen_empty_rule(rep, u)
     rep.floor("pair lookups", c17_audit.all_sections_rule(rep, u), 3)
     rep.floor("name finders", c17_audit.empty_name_rule(rep, u), 4)
     rep.floor("refusal classes of ini_val_set", c17_audit.representable_rule(rep, u), 4)
